@@ -91,13 +91,16 @@ def gen(tier, rng):
     return [('fault%05d' % i, gen_script(rng)) for i in range(n)] + [('create%05d' % i, gen_create_script(rng)) for i in range(n // 3)]
 
 
-def spec_for_acknowledged(lines, io):
-    """replay the model with failed mutators removed; returns the driver's spec lines (aligned with `lines`)"""
+def spec_for_acknowledged(lines, io, drop=()):
+    """replay the model with failed mutators removed; returns the driver's spec lines (aligned with `lines`).
+    `drop`: indices of further lines to leave out (partially failed deletes: the all-or-none bracket)"""
     L2 = []
     for i, l in enumerate(lines):
         t = l.split()[0]
         o = io[i] if i < len(io) else ''
-        if t in ('fail', 'clearfail'):
+        if i in drop:
+            L2.append('nop')
+        elif t in ('fail', 'clearfail'):
             L2.append('nop')
         elif t in ('W', 'D') and (' Err ' in o or o.endswith('Timeout') or ' Panic ' in o):
             L2.append('nop')
@@ -149,13 +152,24 @@ def oracle(lines, io, spec=None):
     # a delete whose fault hit one of the closed blobs is logged and counted as 0 there (the call still returns Ok):
     # which blobs got their marker is then not determined by the acknowledgement; such keys are left out
     uncertain = set()
+    partial = set()
     for i in range(fi, min(ci, len(io), len(amodel))):
         if lines[i].startswith('D ') and io[i] != amodel[i]:
-            uncertain.add(lines[i].split()[1])
+            uncertain.add(lines[i].split()[1]); partial.add(i)
+    # theorem C11_failed_delete_markers / cancelled_delete_read: the read of such a key is the read WITHOUT the delete
+    # or the read WITH the completed delete -- nothing else
+    nspec = spec_for_acknowledged(lines, io, drop=partial)[0] if partial else aspec
+    def bracket_ok(i):
+        a = aspec[i][3:] if i < len(aspec) and aspec[i][:3] in ('ok ', 'f2 ') else None
+        b = nspec[i][3:] if i < len(nspec) and nspec[i][:3] in ('ok ', 'f2 ') else None
+        return a is None or b is None or io[i] in (a, b)
     # session: reads must equal the specification over acknowledged operations
     for i in range(fi, min(close_i, len(io))):
         l = lines[i]
         if l.startswith('R ') and l.split()[1] in uncertain:
+            if not bracket_ok(i):
+                fails.append(tag_for(i) + 'line %d `%s` after a partially failed delete: `%s` is neither the answer without the delete nor the answer with it' % (i, l, io[i]))
+                break
             continue
         if l.startswith('R ') and i < len(aspec) and aspec[i].startswith('ok '):
             want = aspec[i][3:]
@@ -182,6 +196,9 @@ def oracle(lines, io, spec=None):
             for i in range(open_i + 1, min(len(lines), len(io))):
                 l = lines[i]
                 if l.startswith('R ') and l.split()[1] in uncertain:
+                    if not bracket_ok(i) and not quarantined:
+                        fails.append(tag_for(i) + 'line %d `%s` after restart, after a partially failed delete: `%s` is neither the answer without the delete nor the answer with it' % (i, l, io[i]))
+                        break
                     continue
                 if l.startswith('R ') and i < len(aspec) and aspec[i].startswith('ok '):
                     if io[i] != aspec[i][3:] and not quarantined:
